@@ -199,7 +199,8 @@ impl Date {
                 // Escape parts starting with apostrophe
                 if part.starts_with('\'') {
                     let part = part.replace('\u{0000}', "'");
-                    return part[1..part.len() - usize::from(part.ends_with('\''))]
+                    return part
+                        [1..part.len() - usize::from(part.len() > 1 && part.ends_with('\''))]
                         .chars()
                         .collect::<Vec<char>>();
                 }
